@@ -180,6 +180,8 @@ impl Cache {
         name: &DomainName,
         qtype: QueryType,
     ) -> Vec<ResourceRecord> {
+        #[cfg(resolved_verif)]
+        use crate::verif::Instant;
         let now = Instant::now();
         let mut rrs = Vec::new();
         match qtype {
@@ -330,6 +332,8 @@ impl<K1: Clone + Eq + Hash, K2: Copy + Eq + Hash, V: PartialEq> PartitionedCache
         &mut self,
         partition_key: &K1,
     ) -> Option<&HashMap<K2, Vec<(V, Instant)>>> {
+        #[cfg(resolved_verif)]
+        use crate::verif::Instant;
         if let Some(partition) = self.partitions.get_mut(partition_key) {
             partition.last_read = Instant::now();
             self.access_priority
@@ -349,6 +353,8 @@ impl<K1: Clone + Eq + Hash, K2: Copy + Eq + Hash, V: PartialEq> PartitionedCache
         partition_key: &K1,
         record_key: &K2,
     ) -> Option<&[(V, Instant)]> {
+        #[cfg(resolved_verif)]
+        use crate::verif::Instant;
         if let Some(partition) = self.partitions.get_mut(partition_key) {
             if let Some(tuples) = partition.records.get(record_key) {
                 partition.last_read = Instant::now();
@@ -364,6 +370,8 @@ impl<K1: Clone + Eq + Hash, K2: Copy + Eq + Hash, V: PartialEq> PartitionedCache
     /// Insert a record into the cache, or reset the expiry time if already
     /// present.
     pub fn upsert(&mut self, partition_key: K1, record_key: K2, value: V, ttl: Duration) {
+        #[cfg(resolved_verif)]
+        use crate::verif::Instant;
         let now = Instant::now();
         let expiry = now + ttl;
         let tuple = (value, expiry);
@@ -468,6 +476,8 @@ impl<K1: Clone + Eq + Hash, K2: Copy + Eq + Hash, V: PartialEq> PartitionedCache
     ///
     /// Returns the number of records removed.
     fn remove_expired_step(&mut self) -> usize {
+        #[cfg(resolved_verif)]
+        use crate::verif::Instant;
         if let Some((partition_key, Reverse(expiry))) = self.expiry_priority.pop() {
             let now = Instant::now();
 
@@ -535,6 +545,66 @@ impl<K1: Clone + Eq + Hash, K2: Copy + Eq + Hash, V: PartialEq> PartitionedCache
         } else {
             0
         }
+    }
+}
+
+/// A read-only dump of the cache state, for verification.
+#[cfg(resolved_verif)]
+#[derive(Debug, Clone)]
+pub struct VerifDump {
+    pub current_size: usize,
+    pub desired_size: usize,
+    /// (name, last_read, next_expiry, size, [(record, expiry)])
+    pub partitions: Vec<(DomainName, u128, u128, usize, Vec<(RecordTypeWithData, u128)>)>,
+    pub access_priority: Vec<(DomainName, u128)>,
+    pub expiry_priority: Vec<(DomainName, u128)>,
+}
+
+#[cfg(resolved_verif)]
+impl Cache {
+    pub fn verif_dump(&self) -> VerifDump {
+        use crate::verif::instant_nanos;
+        VerifDump {
+            current_size: self.inner.current_size,
+            desired_size: self.inner.desired_size,
+            partitions: self
+                .inner
+                .partitions
+                .iter()
+                .map(|(name, p)| {
+                    (
+                        name.clone(),
+                        instant_nanos(p.last_read),
+                        instant_nanos(p.next_expiry),
+                        p.size,
+                        p.records
+                            .values()
+                            .flatten()
+                            .map(|(v, e)| (v.clone(), instant_nanos(*e)))
+                            .collect(),
+                    )
+                })
+                .collect(),
+            access_priority: self
+                .inner
+                .access_priority
+                .iter()
+                .map(|(k, Reverse(i))| (k.clone(), instant_nanos(*i)))
+                .collect(),
+            expiry_priority: self
+                .inner
+                .expiry_priority
+                .iter()
+                .map(|(k, Reverse(i))| (k.clone(), instant_nanos(*i)))
+                .collect(),
+        }
+    }
+}
+
+#[cfg(resolved_verif)]
+impl SharedCache {
+    pub fn verif_dump(&self) -> VerifDump {
+        self.cache.lock().expect(MUTEX_POISON_MESSAGE).verif_dump()
     }
 }
 
